@@ -368,6 +368,14 @@ def tree_semantics(run, ent, op, parents):
     except KeyError as e:
         run.violate("tree_semantics", {"why": f"tree refers to a column its operand does not have: {e}"}, entry=ent)
         return
+    except ZeroDivisionError as e:
+        # the applied sequence evaluates the partial function only on rows its guards let through (the model did
+        # not raise, or there would be no entry); the tree the library built evaluates it on more rows
+        fired = sorted(k for k in MON.events if k.startswith(("merge:", "then:", "commute:")))
+        kind = "merge_semantics" if any(k.startswith(("merge:", "then:")) for k in fired) else "tree_semantics"
+        run.violate(kind, {"why": "the tree evaluates a partial column function on rows the applied sequence "
+                                  "had already excluded", "library_events": fired}, entry=ent, exc=e)
+        return
     run.stats["tree_semantics_checked"] += 1
     cols = ent.mv.cols
     exp = [M.rowkey(r, cols) for r in ent.mv.rows]
